@@ -107,7 +107,8 @@ def all_classes(ctx, L):
                 for a in vals:
                     for b in vals:
                         one_case(ctx, layout, a, b, do_model=False, kind=kind)
-    files = {"char": [b"h\r\n// DDBEGIN\r\nab;cd\r\n// DDEND\r\nt\r\n", b"// DDBEGIN\nxyz\n// DDEND\n", b"abcde"],
+    files = {"char": [b"h\r\n// DDBEGIN\r\nab;cd\r\n// DDEND\r\nt\r\n", b"// DDBEGIN\nxyz\n// DDEND\n", b"abcde",
+                      b"a\xc3\xa9\xe2\x82\xacb\xf0\x9f\x98\x80c\n", b"\xc3\xa9\xc3\xa9", b"\x80\xbf\xc3"],
              "line": [b"a\r\nb\r\nc\r\n", b"h\nDDBEGIN\na\nb\nDDEND\nt\n"],
              "symbol": [b"f(a){b;c};g[1]=2;\n"],
              "jsstr": [b"x = 'ab' + \"cd\\x41\";\ny = 'e';\n"],
